@@ -172,7 +172,7 @@ Qed.
 Lemma CInv_create_table c ct : CInv c -> CInv (fst (create_table flavour c ct)).
 Proof.
   intros H. unfold create_table.
-  destruct (negb (v1_name_ok flavour (ct_table ct))); [exact H|].
+  destruct (negb (ct_names_ok flavour ct)); [exact H|].
   destruct (mem (ct_table ct) (c_tables c)); [exact H|].
   destruct (check_schema _ _ _) as [[h r]|] eqn:CS; [|exact H].
   destruct (negb (ct_pay_per_request ct) && negb (ct_throughput ct)); [exact H|].
@@ -198,7 +198,7 @@ Lemma CInv_update_table c tn defs create delete :
   CInv c -> CInv (fst (update_table flavour c tn defs create delete)).
 Proof.
   intros H. unfold update_table.
-  destruct (negb (v1_name_ok flavour tn)); [exact H|].
+  match goal with |- context [if negb ?b then _ else _] => destruct (negb b) end; [exact H|].
   destruct (lookup tn (c_tables c)) as [t|] eqn:L; [|exact H].
   destruct (defs_ok t defs) eqn:He; cbn [negb]; [|exact H].
   pose proof (CInv_P _ _ _ H L) as T.
@@ -216,8 +216,7 @@ Proof.
   { intros t2 [T2 N2]. destruct delete as [n|]; [destruct (mem n (t_indexes t2))|]; cbn [fst];
       apply CInv_set_table; auto. }
   destruct create as [d|].
-  - match goal with |- context [if ?b then (t, Some InvalidParam) else _] => destruct b end; [exact H|].
-    destruct (add_global_index t1 _ d) as [t2|] eqn:Ea.
+  - destruct (add_global_index t1 _ d) as [t2|] eqn:Ea.
     + apply Hdel. destruct T1 as [T1 N1]. destruct (add_global_index_data _ _ _ _ Ea) as [_ N]. split; [eapply P_agi; eauto|congruence].
     + cbn [fst]. apply CInv_set_table; auto. apply T1.
   - apply Hdel. exact T1.
